@@ -111,6 +111,28 @@ func rotate(a []int, k int) []int {
 func (w *World) biasedSet(r *Rng, st *State, live []H, picks []int) []H {
 	hs := w.pickHashes(live, picks)
 	L := st.Layout()
+	// bias: every live leaf of a whole tree / of the subtree under an internal
+	// node (such a set has few or no proof hashes of its own)
+	if m := r.Intn(10); m < 3 && len(hs) > 0 {
+		ro := L.LeafAt[hs[0]]
+		up := 1 + r.Intn(3)
+		if m == 0 {
+			up = 64
+		}
+		for i := 0; i < up && !L.IsRoot(ro); i++ {
+			ro = ro.Parent()
+		}
+		lg := L.Log[ro]
+		hs = hs[:0]
+		for sl := lg.lo; sl < lg.lo+(uint64(1)<<lg.h) && sl < uint64(len(st.Leaves)); sl++ {
+			if st.Alive[sl] {
+				hs = append(hs, st.Leaves[sl])
+			}
+		}
+		if len(hs) > 40 {
+			hs = hs[:40]
+		}
+	}
 	// bias: pull in siblings / cousins so that sets nest under common parents
 	if r.Pct(40) {
 		for _, h := range append([]H(nil), hs...) {
